@@ -1,7 +1,7 @@
 (* C08  Per-block address-field information admits every approvable address.  Property theorems only.
    addr_union / addr_intersection are REGENERATED from addr_fields.py on every run. *)
 From Coq Require Import List Bool String.
-From Tealer Require Import LeafPrelude Tables Leaves Syntax StackAst Analysis Domains LeafLemmas AssertedLemmas Instances.
+From Tealer Require Import LeafPrelude Tables Leaves Syntax StackAst Analysis Domains LeafLemmas AssertedLemmas Instances Keys Eval Runs Exec SingleLemmas ExecLemmas.
 Import ListNotations.
 
 (* the marker algebra: a value is {ANY}, {NO} or a plain set -- never a mixture -- and this is preserved *)
@@ -19,12 +19,28 @@ Proof. exact addr_universal_gamma. Qed.
 Theorem C08_no_admits_none : forall n, ~ addr_gamma addr_null_set n.
 Proof. exact addr_null_gamma. Qed.
 (* conditions joined by && || ! under every nesting: sound for well-formed values *)
-Theorem C08_conditions_sound : forall single rho n, leaf_sound wfaddr single addr_name agamma rho n ->
+Theorem C08_conditions_sound : forall single rho n, leaf_sound wfaddr single Instances.addr_name agamma rho n ->
   forall c b, ceval rho c b ->
     if b then agamma (fst (asserted wfaddr wa_univ wa_null wa_union wa_inter single c)) n
     else agamma (snd (asserted wfaddr wa_univ wa_null wa_union wa_inter single c)) n.
 Proof. exact addr_conditions_sound. Qed.
 
+(* END TO END: whenever an approving concrete execution has the field set to a non-zero address a, every block
+   it passes through says 'any' or lists a (abs_name: the creator is listed as CREATOR_ADDRESS).
+   _partial: addr_leaves_ok requires comparands to be literals / ZeroAddress / CreatorAddress (run-time comparands
+   are the documented heuristic), the literal of known finding D19 not to be used, the creator not to be spelled
+   as a literal. *)
+Theorem C08_sound_end_to_end_partial : forall e sem f fld a bc fuel lo cfgs,
+  sem_ok e sem -> env_ok e -> fn_intcs f = e_intcs e -> graph_ok f ->
+  In fld addr_fields_list -> e_field e (e_own e) fld = VAddr a -> a <> "ZERO"%string -> is_marker a = false ->
+  addr_leaves_ok e f KSelf fld ->
+  init_constraints sset addr_universal_set addr_null_set addr_union addr_intersection (addr_single (fn_intcs f) KSelf fld) f = Some bc ->
+  solve sset sset_seteqb addr_universal_set addr_null_set addr_union addr_intersection (addr_single (fn_intcs f) KSelf fld) f fuel bc = Done lo ->
+  Accepts e sem f cfgs ->
+  forall b st, In (b, st) cfgs -> exists v, Analysis.lookup sset lo b = Some v /\ addr_gamma v (abs_name e a).
+Proof. exact C08_sound_partial. Qed.
+
 Print Assumptions C08_union_exact.
 Print Assumptions C08_intersection_exact.
 Print Assumptions C08_conditions_sound.
+Print Assumptions C08_sound_end_to_end_partial.
